@@ -36,6 +36,11 @@ CHECKS = {
          'Every history of up to 3 (thorough 4) events over an 18-event alphabet (define, redefine as class/function/variable, nest, documented-only field, instance attribute, re-export move / renamed / star / by sibling, local definition in the re-exporter, consumers, in-module subclass, two kinds of import cycle, zope implementer) is turned into a 3-module project and built by the real System in both processing orders of the siblings (thorough: 222 300 executions, 10 413 distinct final states). On every final state the nine invariants of the statement are evaluated: registry keys = current qualified names, each object once; contents/parent agreement; parent chains rooted and registered; non-entries are superseded duplicates; kinds fit places; MRO head/once; subclasses = inverse of bases; implements/implementedby; distinct page names. Failing histories are delta-minimised to the events that matter.',
          'Trusted: the invariant evaluator (120 lines); the event alphabet; in-memory module builds (the on-disk path is cross-checked by C06/C07).',
          'DESIGN.md section 5, C02'),
+ 'C06': ('model_checking',
+         'exhaustive enumeration of processing schedules (all sibling permutations per package, all root orders) for every program of a bounded feature family on the real System; canonical dumps compared across schedules; union processing state graph',
+         'Programs are all sets of up to 2 (thorough 3) features out of 33 (cross-module bases by from-import / module attribute / star import, exception and instance-variable inheritance across modules, Final/overload/zope-Interface/__doc__-update reached through module aliases, re-exports by one module with consumers on both sides, alias chains, docformat, three kinds of import cycle) on three skeletons (flat package, sub-package, two roots). Each program is built by the real System under EVERY reachable schedule (6 / 12 / 4), imposed on System.unprocessed_modules, and the canonical dump (type, kind, docstring, bases, resolved bases, MRO, overloads, interface-ness) must be equal across schedules; for programs whose import graph has a cycle only the class hierarchy is compared. Order-dependent programs are minimised to the responsible features. On-disk cross-validation shadows the sorted() call of addPackage.',
+         'Trusted: the dump (what is compared); the schedule seam (order of unprocessed_modules, validated against the real directory-listing path); import-cycle detection by ast.',
+         'DESIGN.md section 5, C06'),
 }
 
 
